@@ -1,0 +1,69 @@
+//go:build verif
+// +build verif
+
+package bucketpool
+
+// Add-only exports for the verification harness (build tag verif), property
+// C38: looking into a bucket without changing what it hands out next.
+//
+// They are meant for a process that runs on one P (GOMAXPROCS(1)) with the
+// garbage collector switched off, where sync.Pool is a deterministic data
+// structure: Put fills the private slot if it is empty and pushes on the
+// shared stack otherwise; Get takes the private slot if it is full and pops
+// the shared stack otherwise.
+
+// VerifBucket returns the index of the bucket that serves buffers of the given
+// size, or -1 if buffers of that size are not pooled.
+func (p *Pool) VerifBucket(size int) int {
+	sp := p.findPool(size)
+	if sp == nil {
+		return -1
+	}
+	for i, q := range p.pools {
+		if q == sp {
+			return i
+		}
+	}
+	return -1
+}
+
+// VerifBucketSizes returns the buffer size of every bucket.
+func (p *Pool) VerifBucketSizes() []int {
+	var out []int
+	for _, q := range p.pools {
+		out = append(out, q.size)
+	}
+	return out
+}
+
+// VerifDrain removes every buffer from bucket idx and returns them in the
+// order Get would have handed them out.
+func (p *Pool) VerifDrain(idx int) []*[]byte {
+	sp := p.pools[idx]
+	old := sp.pool.New
+	fresh := false
+	sp.pool.New = func() interface{} { fresh = true; return nil }
+	var out []*[]byte
+	for {
+		x := sp.pool.Get()
+		if fresh {
+			break
+		}
+		out = append(out, x.(*[]byte))
+	}
+	sp.pool.New = old
+	return out
+}
+
+// VerifRefill puts drained buffers back into the empty bucket idx so that Get
+// hands them out in the order of bufs again.
+func (p *Pool) VerifRefill(idx int, bufs []*[]byte) {
+	sp := p.pools[idx]
+	if len(bufs) == 0 {
+		return
+	}
+	sp.pool.Put(bufs[0]) // private slot
+	for i := len(bufs) - 1; i >= 1; i-- {
+		sp.pool.Put(bufs[i]) // shared stack, bufs[1] on top
+	}
+}
